@@ -751,6 +751,37 @@ theorem loop_guarantees {P : Params} (O : Oracles) (TC : Table) (hB : 0 < P.B) (
   rw [h1, h2]
   exact evalGap_guarantees P.ctx O.h TC hc hcc ha c.hs h3 c.k c.Q c.lamHat (hO c.k) hexact hB hlam Q' hf
 
+/-- **(3b) end to end**: as `loop_guarantees`, with the non-negativity of the certifying multiplier DERIVED — for an EG
+    iterate from `loop_lambdaEG_bounds` (positivity of `exp`), for an LP iterate from the dual LP's bounds
+    (`hlpl`: every LP answer has `lambda >= 0`, which is part of `dual_feasible_iff`).  What remains assumed is exactly
+    what the property assumes: class-member answers and exactness of one oracle call. -/
+theorem loop_guarantees_end_to_end {P : Params} (O : Oracles) (TC : Table) (h : LoopHyp P) (hc : TC.nC = P.c.length)
+    (hcc : TC.c = vec P.c) (ha : AntiSym P.ctx TC) (hO : ∀ k, ∃ i, IsMember TC (O.h k) i)
+    (hlpl : ∀ k, ∀ x ∈ (O.lp k).lam, 0 ≤ x) (b : Nat) (hb : bestIterOf (run P O) = some b) :
+    ∃ c : Cert, (run P O).gaps.getD b 0 = certGap P O c ∧ (run P O).qs.getD b [] = c.Q ∧
+      ((∀ i < TC.nH, storedValue c.lamHat (O.h c.k) ≤ classValue TC c.lamHat i) → ∀ Q', Feasible TC Q' →
+        errQ (tableOf P.c c.hs) (vec ((run P O).qs.getD b []))
+          ≤ errQ TC Q' + 2 * (run P O).gaps.getD b 0 + EGGen.precision ∧
+        (0 ≤ errQ (tableOf P.c c.hs) (vec ((run P O).qs.getD b [])) → errQ TC Q' ≤ 1 → ∀ j < P.c.length,
+          gamQ (tableOf P.c c.hs) (vec ((run P O).qs.getD b [])) j - vec P.c j
+            ≤ (1 + 2 * (run P O).gaps.getD b 0 + EGGen.precision) / P.B)) := by
+  have hinv : CertInv P O TC (run P O) := certInv_runN P O TC hO P.maxIter
+  have hlam : LamInv (run P O) := lamInv_runN P O h.B_pos h.e_pos (etaInit_nonneg h) hlpl P.maxIter
+  have hlt : b < (run P O).gaps.length := (bestIter_spec _ b hb).1
+  have hlen : (run P O).certs.length = (run P O).gaps.length := by rw [hinv.gaps_eq]; simp
+  have hlt' : b < (run P O).certs.length := by omega
+  obtain ⟨h1, h2, h3⟩ := hinv.cert_ok _ (List.getElem_mem hlt')
+  have h4 := hlam.certs_nonneg _ (List.getElem_mem hlt')
+  have hg : (run P O).gaps.getD b 0 = certGap P O ((run P O).certs[b]).1 := by
+    rw [← h1, hinv.gaps_eq]; simp [List.getD_eq_getElem?_getD, hlt']
+  have hq : (run P O).qs.getD b [] = ((run P O).certs[b]).1.Q := by
+    rw [← h2, hinv.qs_eq]; simp [List.getD_eq_getElem?_getD, hlt']
+  refine ⟨((run P O).certs[b]).1, hg, hq, ?_⟩
+  intro hexact Q' hf
+  rw [hg, hq]
+  exact evalGap_guarantees P.ctx O.h TC hc hcc ha _ h3 _ _ _ (hO _) hexact h.B_pos
+    (fun j _ => projLam_nonneg P.ctx _ h4 j) Q' hf
+
 /-- the `_PRECISION` slack is real: stored `h0` (value 1/2), oracle answers the true minimiser `h1` (value 1/2 - 5e-9);
     the improvement is below `_PRECISION`, `best_h` returns `h0`, and `eval_gap` reports gap `0` although the true
     duality gap of `(Q = h0, lambda = 0)` over the class `{h0, h1}` is `5e-9`. -/
